@@ -44,7 +44,8 @@ def tensor_cases(draw, tier="quick"):
         prior = [[draw(st.integers(1, 5)) for _ in range(m)]]
     elif pk == "full":
         prior = [[draw(st.integers(1, 5)) for _ in range(m)] for _ in range(n)]
-    return {"mdp": spec, "R": R, "w": w, "prior": prior, "force_nonzero": draw(st.booleans())}
+    return {"mdp": spec, "R": R, "w": w, "prior": prior, "force_nonzero": draw(st.booleans()),
+            "iters": draw(st.sampled_from([2000, 2000, 2000, 1, 2, 3, 5]))}
 
 
 def lse(x):
@@ -89,7 +90,7 @@ def check_fixed_point(ctx, tag, T, R, gamma, w_vec, w_scalar_f32, pi0, pi, q, v,
     return sm
 
 
-def run_tensor(ctx, T, R, gamma, w, prior, force_nonzero, tag):
+def run_tensor(ctx, T, R, gamma, w, prior, force_nonzero, tag, iters=2000):
     import torch
     from msdm.algorithms.entregpolicyiteration import entropy_regularized_policy_iteration
     kw = {}
@@ -100,7 +101,7 @@ def run_tensor(ctx, T, R, gamma, w, prior, force_nonzero, tag):
     ew = w if not isinstance(w, list) else torch.tensor(w, dtype=torch.float64)
     res = ctx.call(f"C19.{tag}.raises", entropy_regularized_policy_iteration,
                    transition_matrix=torch.from_numpy(T.copy()), reward_matrix=torch.from_numpy(np.array(R, dtype=float)),
-                   discount_rate=gamma, entropy_weight=ew, n_planning_iters=2000,
+                   discount_rate=gamma, entropy_weight=ew, n_planning_iters=iters,
                    force_nonzero_probabilities=force_nonzero, **kw)
     return res
 
@@ -113,7 +114,9 @@ def prop_tensor(case, ctx):
     Rb = np.array(case["R"], dtype=float)
     R = np.broadcast_to(Rb, (n, m, n)).copy()
     w = case["w"]
-    res = run_tensor(ctx, T, case["R"], gamma, w, case["prior"], case["force_nonzero"], "tensor")
+    res = run_tensor(ctx, T, case["R"], gamma, w, case["prior"], case["force_nonzero"], "tensor", iters=case.get("iters", 2000))
+    if case.get("iters", 2000) < 10:
+        ctx.event("tiny_iteration_budget" + ("_reports_converged" if res.converged else ""))
     if not res.converged:
         ctx.event("not_converged")
         return
